@@ -197,7 +197,7 @@ PROPS = {
     ),
     'C12': dict(
         units=['interp', 'macros', 'interp_vm_g0', 'interp_vm_g7', 'json', 'bindctx'],
-        not_covered=['that 32 frames fit the default stack (a machine resource)', 'JSON arrays / objects (the recursive conversion uses iterator adapters: those two arms are dropped; JSON scalars ARE under contract)',
+        not_covered=['that 32 frames fit the default stack (a machine resource)', 'JSON containers below the first level (an array becomes the list of its converted elements in order, an object the map with exactly its keys and the converted values: proved one level deep, nested containers below that are only "list" / "map"); `v.iter().map(f).collect()`, `Map::keys()` and `map[key]` of serde_json are materialized stand-ins / trampolines (assumed: f on every element in order; every key once; Index panics on a missing key = its precondition); the recursive call goes through a trampoline carrying the contract the impl is verified against',
                      'CelContext program table (std HashMap); the BindContext tables ARE under contract over an abstract map (bind_* = insert-or-replace in exactly one table, get_* / is_bound look in exactly the named tables): the std HashMap behind it is assumed'],
         assumptions=['ScopedCounter RAII (the increment is undone on scope exit)'],
     ),
